@@ -299,13 +299,18 @@ class CasJsonDeserializer:
 
         self._strip_reserved_json_keys(attributes)
 
+        def feature_name_for(key_):
+            # Strip the prefix and remap features that use a reserved Python name
+            name_ = key_[1:]
+            return name_ + "_" if name_ == "self" or name_ == "type" else name_
+
         ref_features = {}
         for key, value in list(attributes.items()):
             if key.startswith(REF_FEATURE_PREFIX):
-                ref_features[key[1:]] = value
+                ref_features[feature_name_for(key)] = value
                 attributes.pop(key)
             if key.startswith(NUMBER_FEATURE_PREFIX):
-                attributes[key[1:]] = self._parse_float_value(value)
+                attributes[feature_name_for(key)] = self._parse_float_value(value)
                 attributes.pop(key)
 
         self._max_xmi_id = max(attributes["xmiID"], self._max_xmi_id)
